@@ -710,17 +710,22 @@ def oracle(ctx, case, ops, steps, issued, cps=None, chk=True, needs=None, alltex
                     miss = [x for x in needs[rv] if x not in vis]
                     if miss:
                         bad.append(("op %d commit accepted revision %s although %r are absent" % (i, rv, miss), None))
-                if alltexts and rv in alltexts:
-                    # stacking invariant: texts the inventory names that are not named by a parent
-                    # inventory held by this repository itself must be in this repository
+            # stacking rule as _check_new_inventories applies it (one diff for the whole group): texts named
+            # by the inventories of the new revisions, except those named by inventories that this repository
+            # holds only as parents of the new revisions, must be in this repository itself
+            if alltexts:
+                newrevs = [rv for rv in sorted(vis - set(prev["api"])) if rv in alltexts]
+                inherited = set()
+                for rv in newrevs:
                     a = alltexts[rv]
-                    have_parent = a["parent_inv"] is not None and a["parent_inv"] in vis
-                    inherited = set(alltexts[a["parent_rev"]]["texts"]) if have_parent else set()
-                    miss = [x for x in a["texts"] if x not in inherited and x not in vis]
+                    if a["parent_inv"] is not None and a["parent_inv"] in vis and a["parent_rev"] not in newrevs:
+                        inherited.update(alltexts[a["parent_rev"]]["texts"])
+                for rv in newrevs:
+                    miss = [x for x in alltexts[rv]["texts"] if x not in inherited and x not in vis]
                     if miss:
-                        bad.append(("op %d commit accepted revision %s (parent inventory %s) although the texts %r "
-                                    "its inventory names are not in this repository" % (
-                                        i, rv, "present" if have_parent else "absent", miss), None))
+                        bad.append(("op %d commit accepted revision %s although the texts %r its inventory names are "
+                                    "neither in this repository nor named by a parent-only inventory it holds" % (
+                                        i, rv, miss), None))
         prev = obs
     for tk in issued:
         if not re.fullmatch("[a-f0-9]{32}", tk):
